@@ -108,7 +108,7 @@ fn put_decimal(n: u16, out: &mut [u8; 10], at: usize) -> usize {
 // Display -> FromStr round trips, whole u16 domain
 // --------------------------------------------------------------------------
 
-// @harness props=C17 tier=quick mem=6 t=900 fn="<Type as Display>::fmt,<Type as FromStr>::from_str"
+// @harness props=C17 tier=quick mem=6 t=1200 fn="<Type as Display>::fmt,<Type as FromStr>::from_str"
 //   bound="every u16 value (65 536), one query; unwind 22" sym="v:u16"
 #[kani::proof]
 #[kani::unwind(22)]
@@ -136,7 +136,7 @@ fn c17_class_roundtrip() {
     kani::cover!(v == 0 && p.is_ok(), "CLASS0");
 }
 
-// @harness props=C17 tier=quick mem=6 t=900 fn="<Qtype as Display>::fmt,<Qtype as FromStr>::from_str,<Type as Display>::fmt,<Type as FromStr>::from_str"
+// @harness props=C17 tier=quick mem=6 t=1200 fn="<Qtype as Display>::fmt,<Qtype as FromStr>::from_str,<Type as Display>::fmt,<Type as FromStr>::from_str"
 //   bound="every u16 value (65 536), one query; unwind 22" sym="v:u16"
 #[kani::proof]
 #[kani::unwind(22)]
